@@ -40,6 +40,7 @@ reg("C06", "h_c01")
 reg("C12", "h_c12")
 reg("C07", "h_c07")
 reg("C15", "h_c15")
+reg("C15", "h_c15_cxx")
 reg("C08", "h_c08")
 reg("C09", "h_c09")
 reg("C02", "h_c02")
@@ -508,7 +509,8 @@ def check(prop, tier):
         unknown_syms = json.load(open(os.path.join(bdir, "unknown_symbols.json")))
         sc = make_scratch(bdir)
         try:
-            stats, errs = run_harness(bdir, sc, harness, tier, deadline / len(harnesses))
+            # each harness of a property gets what is left of the property's budget (the later ones are the small ones)
+            stats, errs = run_harness(bdir, sc, harness, tier, max(30.0, deadline - (time.time() - t0)))
         finally:
             shutil.rmtree(sc, ignore_errors=True)
         errs_all += errs
